@@ -1,14 +1,17 @@
 (* C09 — A handler's context is cancelled only for its own cancellation or on close.
    Statements only; every proof is [exact <lemma>].  Model/Receiver.v, every schedule of the receive goroutine, the task
    loop, the handler goroutines and Close.  Environment hypotheses built into the model: seqnos of the peer's calls are
-   non-negative and not reused while a call with that seqno is still being served. *)
+   non-negative and not reused while a call with that seqno is still being served.  Cancellation frames may name any
+   seqno: a negative one is dropped by the receive goroutine when [sk_cancel_negative_ignored] holds (notification
+   handlers are filed under negative keys), and reaches the task loop otherwise. *)
 From FMP Require Import Base.Bytes Base.Lts Model.Events Model.Skeleton Model.Props Model.Receiver
      Proofs.ReceiverProofs Proofs.SkeletonProofs.
 Open Scope Z_scope.
 
 (* the completion or cancellation of any other call or notification never cancels a running handler's context *)
 Theorem C09_cancelled_only_for_own_reasons : forall sk ls st,
-    sk_notify_key_unique sk = true -> run (rstep sk) rinit ls = Some st -> c09_only_own (rtrace st) = true.
+    sk_notify_key_unique sk = true -> sk_cancel_negative_ignored sk = true ->
+    run (rstep sk) rinit ls = Some st -> c09_only_own (rtrace st) = true.
 Proof. exact recv_c09_only_own. Qed.
 
 (* when the transport closes, the context of every handler still running is cancelled *)
@@ -25,6 +28,10 @@ Proof. exact recv_taskloop_exits_only_after_stop. Qed.
 Theorem C09_generated_ok : skeleton_now = expected_skeleton /\ sk_notify_key_unique expected_skeleton = true.
 Proof. exact (conj generated_ok eq_refl). Qed.
 
+(* ... and drops cancellation frames with a negative seqno *)
+Theorem C09_generated_guard_ok : sk_cancel_negative_ignored skeleton_now = true.
+Proof. exact (f_equal sk_cancel_negative_ignored generated_ok). Qed.
+
 (* the mechanism before the repair (one shared key -1), kept as theorems: both halves of the property fail *)
 Theorem C09_shared_key_refuted : exists ls st,
     run (rstep old_skeleton) rinit ls = Some st /\ c09_only_own (rtrace st) = false.
@@ -34,6 +41,20 @@ Theorem C09_shared_key_close_refuted : exists ls st x,
     run (rstep old_skeleton) rinit ls = Some st /\ tl_alive st = false /\ In x (handlers st) /\
     hd_pc x = HRun /\ hd_ctx x = false.
 Proof. exact recv_shared_key_close_refuted. Qed.
+
+(* without the guard on negative seqnos a cancellation frame naming -1 cancels the first notification's handler *)
+Theorem C09_negative_cancel_refuted : exists sk ls st,
+    sk_notify_key_unique sk = true /\ sk_cancel_negative_ignored sk = false /\
+    run (rstep sk) rinit ls = Some st /\ c09_only_own (rtrace st) = false.
+Proof. exact recv_negative_cancel_refuted. Qed.
+
+(* ... and with the guard the same frames leave that handler alone *)
+Example ex_negative_cancel_ignored : exists st,
+    run (rstep expected_skeleton) rinit [RInNotify; RBeginRv; RInCancel (-1)] = Some st /\
+    recv st = RIdle /\ c09_only_own (rtrace st) = true /\
+    (exists x, hfind 0 (handlers st) = Some x /\ hd_pc x = HRun /\ hd_ctx x = false).
+Proof. eexists. split; [vm_compute; reflexivity|]. split; [reflexivity|]. split; [vm_compute; reflexivity|].
+       eexists. vm_compute. repeat split. Qed.
 
 (* non-vacuity: two notifications and a cancelled call under the current skeleton *)
 Example ex_run : exists st, run (rstep expected_skeleton) rinit
@@ -45,5 +66,7 @@ Print Assumptions C09_cancelled_only_for_own_reasons.
 Print Assumptions C09_close_cancels_all.
 Print Assumptions C09_taskloop_exits_only_after_stop.
 Print Assumptions C09_generated_ok.
+Print Assumptions C09_generated_guard_ok.
 Print Assumptions C09_shared_key_refuted.
 Print Assumptions C09_shared_key_close_refuted.
+Print Assumptions C09_negative_cancel_refuted.
